@@ -707,7 +707,11 @@ def trusted_base(prop):
 
 
 def partial_clauses(prop):
-    return ["all C15 theorems are stated for sep = '/' (other separators: known finding K4-C15, Example C15_refuted_sep)",
+    return ["the clause theorems and the umbrella C15_model_satisfies_prop_partial (prop_C15 holds of the model for all inputs of "
+            "the domain) are stated for sep = '/'; for other one-character separators C15_sep_refused_iff proves the boundary of "
+            "known finding K4-C15 (None iff no kept row, TreeError iff two different kept rows, a one-node tree otherwise) in terms "
+            "of the marked path strings handed to dataframe_to_tree (kept_paths), not yet in terms of the two path sets; "
+            "multi-character separators are not covered",
             "all C15 theorems carry the guard lookalike_free: no name already ends in ' (-)', ' (+)' or ' (~)' "
             "(Example C15_lookalike_guard_needed shows the predicate is false without it); the correspondence check "
             "still compares model and implementation on such names but does not evaluate the predicate there",
